@@ -688,6 +688,14 @@ def flag_spec_failures(script: List[List[int]], obs: List[int]):
 
 def run(chk: Check):
     rng = random.Random(chk.seed)
+    seen: Dict[str, int] = {}
+
+    def _report(key, desc, replay):
+        # one replay per failing class (key); every occurrence is counted in the evidence
+        seen[key] = seen.get(key, 0) + 1
+        if seen[key] == 1:
+            _report(key, desc, replay)
+
     gen_ok = regen_or_report(chk)
     if gen_ok:
         proved = chk.prove(FAM, "Props.C09", THEOREMS, extra_targets=["Model/Values.vo", "Model/Flag.vo"])
@@ -724,7 +732,7 @@ def run(chk: Check):
                         o.get("enabled", True)))
         v = oracle(o, r, L)
         if v:
-            chk.spec_failure(key=v[0], desc=v[1], replay=dict(kind="op", classes=specs, compiled=comp,
+            _report(v[0], v[1], dict(kind="op", classes=specs, compiled=comp,
                                                               op={k: x for k, x in o.items() if not k.startswith("_")},
                                                               observed=r))
     bad, log = FAM.eval_cases(CHECK_STRICT, cases, per_file=250) if gen_ok else ([], "")
@@ -760,14 +768,14 @@ def run(chk: Check):
         fcases.append("([" + ";".join(f"({t},{c})" for t, c in s["script"]) + "], " + zl(obs) + ")")
         nflag += 1
         for key, desc in flag_spec_failures(s["script"], obs):
-            chk.spec_failure(key=key, desc=desc, replay=dict(kind="flag", script=s, observed=obs))
+            _report(key, desc, dict(kind="flag", script=s, observed=obs))
     for p, obs in zip(progs, fr["withs"]):
         ev = flatten_prog(p)
         sc = [[0, c] for c in ev]
         fcases.append("([" + ";".join(f"(0,{c})" for c in ev) + "], " + zl(obs) + ")")
         nflag += 1
         for key, desc in flag_spec_failures(sc, obs):
-            chk.spec_failure(key=key, desc=desc, replay=dict(kind="with", prog=p, observed=obs))
+            _report(key, desc, dict(kind="with", prog=p, observed=obs))
     fbad, flog = FAM.eval_cases(FLAG_HEADER, fcases, per_file=400, tag="f") if gen_ok else ([], "")
     for b in fbad[:3]:
         if b < 0:
@@ -787,6 +795,7 @@ def run(chk: Check):
                        "(exception class compared softly); distinct by (field type, key, value, flag). Flag: enter/exit/"
                        "exit-by-exception scripts on 1-3 threads and programs with real `with` statements vs Model/Flag.v")
     chk.cov["input_distribution"] = dist
+    chk.cov["spec_oracle_failures_by_key"] = seen
     chk.cov["exception_class_only_mismatches"] = soft
     chk.cov["exhaustive"] = chk.tier == "thorough"
     step = max(1, len(ops) // 5)
